@@ -100,8 +100,19 @@ class Probe:
 PROBE = None
 
 
+_CASES_RUN = [0]
+
+
 def run_maybe_probed(mod, case):
     global PROBE
+    # network-level properties compile new executables for every case; dropping the compilation caches every few cases keeps
+    # a long-running shard from exhausting memory maps (segfaults inside XLA were observed after ~25 training cases)
+    every = getattr(mod, "CLEAR_CACHES_EVERY", 0)
+    _CASES_RUN[0] += 1
+    if every and _CASES_RUN[0] % every == 0:
+        import jax
+
+        jax.clear_caches()
     if hasattr(mod, "is_risky") and mod.is_risky(case):
         if PROBE is None:
             PROBE = Probe(mod.PID)
